@@ -434,6 +434,7 @@ def explore_config(run, cfg, env, limits=None, findings=(), width=80, collect_fu
     limits = limits or Limits()
     core.set_width(width)
     t0 = time.time()
+    cvc5_before = dict(fpsolve.STATS)
     res = {
         "cfg": cfg, "paths": 0, "aborted": 0, "decisions": 0, "queries": 0, "solver_s": 0.0,
         "obligations": 0, "discharged": 0, "violations": [], "known": [], "inconclusive": [],
@@ -555,6 +556,8 @@ def explore_config(run, cfg, env, limits=None, findings=(), width=80, collect_fu
         prefix[-1] = [not last[0], False, last[2]]
 
     res["wall_s"] = time.time() - t0
+    res["cvc5_queries"] = fpsolve.STATS["cvc5_queries"] - cvc5_before["cvc5_queries"]
+    res["cvc5_s"] = fpsolve.STATS["cvc5_s"] - cvc5_before["cvc5_s"]
     res["covered"] = sorted(res["covered"])
     res["functions"] = sorted(res["functions"])
     return res
